@@ -138,7 +138,8 @@ def malformed_reqs(uni):
                 del a["tags"]
             elif ab is not None:
                 a.pop(ab, None)
-            out.append(([conc], [a]))
+            # an empty list matches nothing (NIP-01), whatever the other conditions say; any other junk is bounded by the remainder
+            out.append(([conc], [{"ids": []}] if j == [] and key in ("ids", "authors", "kinds", "#t") else [a]))
             # the mutated field alone, for junk that has no sensible coercion into a value some event carries:
             # nothing else constrains the answer, so only an empty answer is sound
             if key in ("ids", "authors", "kinds", "#t") and any(j is x or (type(j) is type(x) and j == x) for x in NOCOERCE):
